@@ -67,6 +67,47 @@ fn heads(i: u64, st: &mut Stats) -> CaseResult {
     Ok(())
 }
 
+/// The standard tagged representations a decoder might grow support for (RFC 8949 section 3.4: date/time strings, epoch
+/// times, bignums, decimal fractions, bigfloats, encoded-CBOR, URIs ..; RFC 8746 typed arrays; self-describe): each registered
+/// tag around each of ~180 payloads - integers and floats of every width at the boundaries of the integer and float types
+/// (2^63, 2^64, f32::MAX, f64::MAX, subnormals, NaNs, infinities), short and empty strings, small arrays - through every entry
+/// point. Magnitudes that overflow a conversion (seconds into a Duration, a bignum into an integer) must be errors.
+fn tagged_numbers(i: u64, st: &mut Stats) -> CaseResult {
+    const TAGS: [u64; 26] = [0, 1, 2, 3, 4, 5, 21, 22, 23, 24, 32, 33, 34, 35, 36, 37, 64, 77, 86, 100, 258, 1001, 1004, 55799, 55800, u64::MAX];
+    fn payloads() -> &'static Vec<Vec<u8>> {
+        static P: std::sync::OnceLock<Vec<Vec<u8>>> = std::sync::OnceLock::new();
+        P.get_or_init(|| {
+            use vcore::item::{Item, W};
+            let mut v: Vec<Item> = Vec::new();
+            for k in [0u64, 1, 23, 24, 255, 256, 65535, 65536, 0x7fff_ffff, 0x8000_0000, 0xffff_ffff, 0x1_0000_0000, 999_999_999, 1_000_000_000, 253_402_300_799, 253_402_300_800, i64::MAX as u64, 1 << 63, u64::MAX - 1, u64::MAX] {
+                v.push(Item::UInt(k, W::min_for(k))); v.push(Item::NInt(k, W::min_for(k))); v.push(Item::UInt(k, W::W8));
+            }
+            for b in [0u32, 0x8000_0000, 1, 0x3f80_0000, 0xbf80_0000, 0x4f00_0000, 0x4f80_0000, 0x5f00_0000, 0x5f80_0000, 0xdf80_0000, 0x5f80_0001, 0x7f7f_ffff, 0xff7f_ffff, 0x7f80_0000, 0xff80_0000, 0x7fc0_0000, 0x7f80_0001, 0x3000_0000, 0x4e6e_6b28] { v.push(Item::F32(b)) }
+            for b in [0u64, 1 << 63, 1, 0x3ff0_0000_0000_0000, 0x41df_ffff_ffc0_0000, 0x41e0_0000_0000_0000, 0x43e0_0000_0000_0000, 0x43f0_0000_0000_0000, 0xc3f0_0000_0000_0000, 0x43f0_0000_0000_0001, 0x4415_af1d_78b5_8c40, 0x7fef_ffff_ffff_ffff, 0xffef_ffff_ffff_ffff,
+                      0x7ff0_0000_0000_0000, 0xfff0_0000_0000_0000, 0x7ff8_0000_0000_0000, 0x7ff0_0000_0000_0001, 0x3e11_2e0b_e826_d695, 0x4202_a05f_2000_0000, 0x3fef_ffff_ffff_ffff] { v.push(Item::F64(b)) }
+            for h in [0u16, 0x3c00, 0x7bff, 0xfbff, 0x7c00, 0x7e00, 0x0001] { v.push(Item::F16(h)) }
+            v.push(Item::text("")); v.push(Item::text("2013-03-21T20:04:00Z")); v.push(Item::text("1e400")); v.push(Item::bytes(&[])); v.push(Item::bytes(&[0xff; 9])); v.push(Item::bytes(&[0x01, 0, 0, 0, 0, 0, 0, 0, 0]));
+            v.push(Item::array(vec![])); v.push(Item::array(vec![Item::int(-2), Item::uint(27315)])); v.push(Item::array(vec![Item::uint(u64::MAX), Item::uint(u64::MAX)])); v.push(Item::array(vec![Item::int(-1), Item::F64(0x7fef_ffff_ffff_ffff)]));
+            v.push(Item::Null); v.push(Item::map(vec![]));
+            v.iter().map(|i| i.encode()).collect()
+        })
+    }
+    let ps = payloads();
+    let t = TAGS[(i as usize / ps.len()) % TAGS.len()];
+    let p = &ps[i as usize % ps.len()];
+    let mut input = Vec::new();
+    vcore::item::write_head(&mut input, 6, t, vcore::item::W::min_for(t));
+    input.extend_from_slice(p);
+    run_all(&input, 0, st)?;
+    // the same inside the containers typed decoders look into: first element of an array, value of a map entry
+    let mut a = vec![0x82]; a.extend_from_slice(&input); a.push(0x00);
+    run_all(&a, 0, st)?;
+    st.nontrivial_enum(1);
+    if i % 499 == 0 { st.sample(i, || format!("{} through {} entry points", short_hex(&input), eps().len())) }
+    Ok(())
+}
+fn tagged_numbers_count() -> u64 { 26 * 118 }
+
 /// A valid encoding of a value of registry type `E`, pushed through structure-aware mutations,
 /// decoded as `E` (by index) and as a handful of other entry points.
 fn directed<E: Entry>(g: &mut Gen, st: &mut Stats) -> CaseResult {
@@ -236,6 +277,8 @@ fn all_subs() -> Vec<Sub> {
               kind: Kind::Enumerate { quick: 1 + 256 + 65536, thorough: 1 + 256 + 65536 + (1 << 24), f: short_inputs, complete_quick: true, complete_thorough: true } },
         Sub { prop: "C02", name: "heads", rule: "all 256 initial bytes x 8 argument patterns at the width the byte announces (zeros, ones, 7f.., 1, 80.., 24, 256, 100000) x 5 tails x every entry point",
               kind: Kind::Enumerate { quick: 256 * 8 * 5, thorough: 256 * 8 * 5, f: heads, complete_quick: true, complete_thorough: true } },
+        Sub { prop: "C02", name: "tagged-numbers", rule: "26 tag numbers (the RFC 8949 / 8746 registered ones a decoder might understand - date/time, epoch, bignums, fractions, URIs, typed arrays, self-describe - and boundaries) x ~180 payloads (integers and floats of every width at the boundaries of the integer, float and time types incl. >= 2^63, >= 2^64, f32::MAX, f64::MAX, NaNs, infinities; strings; small arrays), bare and as element of an array, through every entry point: no panic, bounded work and memory, position in bounds",
+              kind: Kind::Enumerate { quick: tagged_numbers_count(), thorough: tagged_numbers_count(), f: tagged_numbers, complete_quick: true, complete_thorough: true } },
         Sub { prop: "C02", name: "type-directed", rule: "valid encoding of a generated value of a registry type, 1-3 structure-aware mutations (truncate, bit flip, extreme/inflated head argument, major swap, inserted break, duplicate, indefinite, reserved ai, ...), decoded as that type and 8 random other entry points, sometimes from an arbitrary position; non-trivial = the own type rejects the mutant and it is >= 2 bytes; distinct by (type, bytes)",
               kind: Kind::Random { quick: 1_500_000, thorough: 10_000_000, tape: 1024, f: type_directed } },
         Sub { prop: "C02", name: "mutated-trees", rule: "random bytes, well-formed trees and mutated trees through every entry point; non-trivial = some entry rejects",
